@@ -403,7 +403,8 @@ def state_conversions(case, ctx):
 
 # ----------------------------------------------------------------------------
 SPLIT_FILTERS = ['Param', 'BatchStat', 'Variable', 'VariableState', 'path:a',
-                 'path:b', 'path:layer', 'tag:t', 'rest', 'nothing']
+                 'path:b', 'path:layer', 'tag:t', 'rest', 'true', 'nothing']
+CATCH_ALL = ('rest', 'true')
 
 
 def _mk_filter(name):
@@ -419,6 +420,8 @@ def _mk_filter(name):
     return nnx.PathContains(name[5:])
   if name.startswith('tag:'):
     return nnx.WithTag(name[4:])
+  if name == 'true':
+    return True
   return ... if name == 'rest' else False
 
 
@@ -435,21 +438,22 @@ def _ref_match(name, path, leaf):
     return name[5:] in path
   if name.startswith('tag:'):
     return getattr(leaf, 'tag', None) == name[4:]
-  return name == 'rest'
+  return name in CATCH_ALL
 
 
 def _split_case():
   return st.tuples(
       state_tree(),
-      st.lists(st.sampled_from(SPLIT_FILTERS), min_size=1, max_size=3),
+      st.lists(st.sampled_from(SPLIT_FILTERS), min_size=1, max_size=4),
       st.sampled_from(['split_state', 'State.split', 'filter_state',
                        'State.filter']))
 
 
 @clause('split_merge_inverse', strategy=_split_case, quick=2000,
         thorough=100000,
-        rule='random nested States x 1-3 filters (Variable types, '
-        'VariableState, PathContains, WithTag, ..., nothing; "..." kept last) '
+        rule='random nested States x 1-4 filters (Variable types, '
+        'VariableState, PathContains, WithTag, nothing, and the catch-alls '
+        '... / True, of which any number may trail the list) '
         'x {split_state, State.split, filter_state, State.filter}: every part '
         'holds exactly the leaves whose first matching filter it is (same '
         'leaf objects); split raises ValueError iff some leaf matches no '
@@ -458,9 +462,10 @@ def _split_case():
         '>=3 leaves and >=2 non-empty parts (or a non-exhaustive split)')
 def split_merge_inverse(case, ctx):
   tree, names, api = case
-  # "..." is only legal in last position
-  names = [n for n in names if n != 'rest'] + (['rest'] if 'rest' in names
-                                                else [])
+  # catch-alls ("..." / True) are only legal as the last filters, but any
+  # number of them may trail the list (_split_state's own validation)
+  names = ([n for n in names if n not in CATCH_ALL]
+           + [n for n in names if n in CATCH_ALL])
   d = sbuild(tree)
   model = flat_model(d)
   s = statelib.State(d)
